@@ -255,7 +255,7 @@ pub fn run(tier: Tier, seed: u64, known: &Known) -> PropRun {
     }
     run.extra.insert("deep_part_node_cap".into(), json!(cap));
     let parts: [(&str, u64, usize, fn(&[u8], &mut Stats) -> Verdict); 3] = [
-        ("api", tier.pick(60_000, 3_000_000), 200, part_api),
+        ("api", tier.pick(250_000, 3_000_000), 200, part_api),
         ("recorded", tier.pick(1_500, 60_000), 400, part_recorded),
         ("deep", tier.pick(320, 4_000), 700, if tier == Tier::Quick { part_deep_q } else { part_deep_t }),
     ];
